@@ -83,7 +83,7 @@ def parseErr : String → Option VmErr
   | "negfee" => some .negfee
   | _ => none
 
-/-- `vm <fee> <err> x=<t>:<amt>,… s=<k>:<v>,… d=<k>,… fd=<0|1>` -/
+/-- `vm <fee> <err> x=<t>:<amt>,… s=<k>:<v>,… d=<k>,… fd=<0|1> [multi]` -/
 def parseScript : List String → Option Script
   | ["vm", fee, err, xs, ss, ds, fd] => do
     let fee ← fee.toNat?
@@ -93,6 +93,10 @@ def parseScript : List String → Option Script
     let ds ← if ds.startsWith "d=" then parseList String.toNat? (ds.drop 2).toString else none
     let nofd ← if fd == "fd=0" then some true else if fd == "fd=1" then some false else none
     pure { fee, err, xfers := xs, sets := ss, dels := ds, nofd }
+  | ["vm", fee, err, xs, ss, ds, fd, "multi"] => do
+    -- the payload of a MULTICALL that is a multicall script
+    let sc ← parseScript ["vm", fee, err, xs, ss, ds, fd]
+    pure { sc with multi := true }
   | _ => none
 
 def parseGov : List String → Option GovOp
